@@ -605,10 +605,107 @@ func ruleR15cd(c *Ctx) {
 		}
 		c.RunPaths(root, 0, pr)
 	}
+	// R15e: the re-examination walks the whole queue. If it asks a node for its successor after removing that
+	// node (grant = remove + close), LinkedListNode.Remove must leave the node's own forward link intact;
+	// otherwise the walk stops at the first grant and the other requests that became grantable stay queued.
+	ruleR15e(c, isRecheck)
 	if nUnlockCalls == 0 {
 		oblC.undecided("floor:unlock-call-sites", token.NoPos, "no call of lockIntent.unlock found")
 	}
 	if nCancelArms == 0 {
 		oblD.undecided("floor:cancellation-arm", token.NoPos, "no blocking select on ctx.Done() found in the lock manager: cancellation handling moved or was removed")
+	}
+}
+
+func ruleR15e(c *Ctx, isRecheck func(fn *ssa.Function) bool) {
+	const rule = "R15e"
+	pkgCU := libsPath + "/collectionutils"
+	isNodeMethod := func(ci ssa.CallInstruction, name string) (ssa.Value, bool) {
+		f := staticCallee(ci)
+		if f == nil || fnPkgPath(origin(f)) != pkgCU || recvTypeName(origin(f)) != "LinkedListNode" || origName(f) != name {
+			return nil, false
+		}
+		return ci.Common().Args[0], true
+	}
+	nWalks := 0
+	needsSafeRemoval := false
+	var where ssa.Instruction
+	for _, fn := range c.FuncsIn(pkgCommand) {
+		if !isRecheck(fn) {
+			continue
+		}
+		nWalks++
+		idx := map[ssa.Value]uint{}
+		pr := &PathRule{
+			Step: func(pc *PathCtx, s uint64, ins ssa.Instruction) uint64 {
+				ci, ok := ins.(ssa.CallInstruction)
+				if !ok {
+					// a new value of the loop variable: a different node
+					if phi, isPhi := ins.(*ssa.Phi); isPhi {
+						if i, ok := idx[phi]; ok {
+							s &^= 1 << i
+						}
+					}
+					return s
+				}
+				if v, ok := isNodeMethod(ci, "Remove"); ok {
+					if _, have := idx[v]; !have {
+						idx[v] = uint(len(idx))
+					}
+					return s | 1<<idx[v]
+				}
+				if v, ok := isNodeMethod(ci, "Next"); ok {
+					if i, have := idx[v]; have && s&(1<<i) != 0 {
+						needsSafeRemoval = true
+						where = ins
+					}
+				}
+				return s
+			},
+		}
+		c.RunPaths(fn, 0, pr)
+	}
+	if nWalks == 0 {
+		c.undecided(rule, "floor:queue-walk", token.NoPos, "no function of package command walks the intents list")
+		return
+	}
+	if !needsSafeRemoval {
+		c.ok(rule, "queue-walk:successor-read-before-removal", token.NoPos, "the queue walk never asks a removed node for its successor")
+		return
+	}
+	// Remove must not overwrite the receiver's own nextNode
+	var remove *ssa.Function
+	for f := range c.AllFns {
+		if fnPkgPath(origin(f)) == pkgCU && recvTypeName(origin(f)) == "LinkedListNode" && origName(f) == "Remove" && len(f.Blocks) > 0 {
+			if remove == nil || f.String() < remove.String() {
+				remove = f
+			}
+		}
+	}
+	if remove == nil {
+		c.undecided(rule, "anchor:LinkedListNode.Remove", token.NoPos, "not found")
+		return
+	}
+	clobbers := false
+	var pos token.Pos
+	recv := remove.Params[0]
+	for _, b := range remove.Blocks {
+		for _, ins := range b.Instrs {
+			st, ok := ins.(*ssa.Store)
+			if !ok {
+				continue
+			}
+			if fa, ok := st.Addr.(*ssa.FieldAddr); ok && fa.X == ssa.Value(recv) {
+				if f := fieldOfAddr(fa); f != nil && f.Name() == "nextNode" {
+					clobbers = true
+					pos = st.Pos()
+				}
+			}
+		}
+	}
+	if clobbers {
+		c.bad(rule, "LinkedListNode.Remove:keeps-forward-link", pos, "LinkedListNode.Remove overwrites the removed node's own nextNode, while the lock manager's queue walk ("+c.pos(where.Pos())+") calls Next() on a node it has just removed: the walk stops after the first grant, so other pending requests whose conflicting holders have released are not granted")
+	} else {
+		c.ok(rule, "LinkedListNode.Remove:keeps-forward-link", remove.Pos(), "Remove leaves the removed node's forward link intact (the queue walk continues past a granted request)")
 	}
 }
